@@ -19,7 +19,7 @@ from mc import c25_core as C
 ID = "C25"
 LEVEL = "model_checking"
 EXHAUSTIVE = True
-CASE_TIMEOUT = 3000
+CASE_TIMEOUT = 14400     # a depth-3 pair is ~400 CPU-s on an idle core
 RULE = ("a state is (invoke, accepted transformation history), histories explored "
         "breadth-first to the depth bound and de-duplicated on a structural "
         "fingerprint of the transformed schedule; every state that lowers is executed "
@@ -121,6 +121,8 @@ def bounds(tier):
         "single_kernel_invokes": len(list(_single_specs())),
         "single_depth": 1 if tier == "quick" else 2,
         "two_kernel_invokes": len(_pairs(tier)),
+        "two_kernel_invoke_list": [_short(a) + "+" + _short(b)
+                                   for a, b, _d in _pairs(tier)],
         "pair_depths": dict(collections.Counter(
             str(d) for _a, _b, d in _pairs(tier))),
         "depth_rule": "number of transformations, a leading GOConstLoopBoundsTrans "
@@ -383,7 +385,9 @@ def kernel_modes(hist, nkern):
 
 
 def lower_and_run(inv, sched, hist, grids):
-    """('gen-refused', class) or ('ok', {grid: visits | ('ub', text)})."""
+    """('gen-refused', class) or ('ok', {grid: visits | ('ub', text)}, ran):
+    ran is False when the executions were shared with an earlier state of the
+    same invoke that has the same skeleton."""
     from psyclone.errors import GenerationError, InternalError
     from psyclone.psyir.backend.visitor import VisitorError
     modes = kernel_modes(hist, len(inv.kernels))
@@ -808,7 +812,9 @@ def replay(case):
         full = contain({"key": "replay", "offset": case["offset"],
                         "type": case["type"]})
         return {"viol": full["viol"], "classes": full["classes"]}
-    cfg = {"key": "replay", "kernels": case["kernels"], "depth": len(case["hist"]),
+    name = "+".join(_short(tuple(k)) for k in case["kernels"])
+    cfg = {"key": ("s:" if len(case["kernels"]) == 1 else "p:") + name,
+           "kernels": case["kernels"], "depth": len(case["hist"]),
            "loops": "all", "tsel": "each"}
     full = explore(cfg, only_hist=case["hist"])
     want = hist_text(case["hist"])
